@@ -722,7 +722,8 @@ def cmdExec : Cmd St := fun _ s neg args =>
   match args with
   | [] => fatal s
   | prog :: rest =>
-    if rest.isEmpty && prog = [38] then fatal s
+    -- usage: no program, only a background specifier (`&`, and since the repair also `&name&`)
+    if rest.isEmpty && (if Gen.TsRun.execRejectsLoneBgSpec then isBgSpec prog else prog = [38]) then fatal s
     else if !s.fs.isDir s.cd then unm s
     else if isBgSpec ((rest.getLast?).getD prog) then
       if (findBg s.bg (bgNameOf ((rest.getLast?).getD prog))).isSome then fatal s
